@@ -114,6 +114,7 @@ class AccumulateLoop:
     def on_entry(self, I, env, sl, st):
         acc, m, pt = self._parts(I, env)
         I.ghost["accloop"] = {"old": acc.fields["_numeric_partials"]}
+        self.check_at(I, env, sl, st, z3.IntVal(0))          # the invariant holds on entry
 
     def _view(self, I, env, sl, j):
         from .contracts import acc_view
@@ -144,7 +145,70 @@ class AccumulateLoop:
                        "loop-invariant:accumulate/children-so-far-defined", qfacts=True)
 
 
+class SynthAccumulateLoop:
+    """Add._compute_synthetic_partials: after j iterations the accumulator is in the state the
+    contract prescribes for the virtual node Add(c_0 .. c_{j-1}) (the prefix of the children)."""
+    def element(self, I, sl, j):
+        return sl.elem(j)
+
+    def _parts(self, I, env):
+        fd = I.frames[-1].funcdef
+        names = [a.arg for a in fd.node.args.args]
+        from .interp import Unsupported
+        if len(names) != 3:
+            raise Unsupported("G-mode: unexpected signature of _compute_synthetic_partials")
+        return env.vars[names[0]], env.vars[names[1]], env.vars[names[2]]
+
+    def prefix(self, I, slf, sl, j):
+        """The virtual node made of the first j children (same class as self)."""
+        key = z3.simplify(j).get_id() if z3.is_expr(j) else j
+        cache = I.ghost.setdefault("prefix_nodes", {})
+        if key not in cache:
+            o = Obj(slf.cls, f"{slf.name}[:{j}]")
+            o.fields["_inners"] = SList(j, sl.elem, f"{sl.tag}[:{j}]", family=sl.family)
+            o.fields["_variable_names"] = SSet(spec.vars_of(I, o))
+            cache[key] = o
+        return cache[key]
+
+    def on_entry(self, I, env, sl, st):
+        slf, acc, m = self._parts(I, env)
+        I.ghost["synthloop"] = {"d0": acc.fields["_synthetic_partials"]}
+        self.check_at(I, env, sl, st, z3.IntVal(0))          # the invariant holds on entry
+
+    def assume_at(self, I, env, sl, st, j):
+        from . import synth
+        slf, acc, m = self._parts(I, env)
+        d0 = I.ghost["synthloop"]["d0"]
+        acc.fields["_synthetic_partials"] = synth.post_state_dict(I.contracts, I, self.prefix(I, slf, sl, j), d0, m)
+
+    def check_at(self, I, env, sl, st, j1):
+        from . import synth
+        slf, acc, m = self._parts(I, env)
+        d0 = I.ghost["synthloop"]["d0"]
+        pre = self.prefix(I, slf, sl, j1)
+        fam = sl.family
+        for k in I.ghost.get("ambient_names", []):
+            absent0, old = synth.dict_state(I, d0, k)
+            in_vars = sym.member(k, spec.vars_of(I, pre))
+            for pt in list(I.ghost.get("points", {}).values()):
+                # induction hypothesis for every child: a variable that does not occur has partial 0
+                qm(I).foralls.append((fam.length, lambda t, pt=pt, k=k: z3.Implies(
+                    z3.Not(sym.member(k, spec.vars_of(I, fam.child(I, t)))), spec.den(I, fam.child(I, t), pt).dV(k) == 0)))
+            for ci, (cond, absent1, new) in enumerate(synth.final_views(I, acc.fields["_synthetic_partials"], k)):
+                I.path.require(z3.Implies(cond, absent1 == z3.And(absent0, z3.Not(in_vars))),
+                               "loop-invariant:symbolic-accumulate/entry-presence-preserved", qfacts=True)
+                if new is None:
+                    continue
+                for pt in list(I.ghost.get("points", {}).values()):
+                    I.path.require(z3.Implies(cond, synth.accumulate_clause(I, pt, k, absent0, old, absent1, new, pre, m)),
+                                   "loop-invariant:symbolic-accumulate/denotation-preserved", qfacts=True)
+                vs = sym.union(sym.union(synth.old_vars(I, absent0, old), spec.vars_of(I, m)), spec.vars_of(I, pre))
+                I.path.require(z3.Implies(z3.And(cond, z3.Not(absent1)), gmode.skolem_subset(I, spec.vars_of(I, new), vs, "accvars")),
+                               "loop-invariant:symbolic-accumulate/variables-preserved", qfacts=True)
+
+
 REGISTRY = {
     ("math_functions.multiply", 0): MultiplyLoop(),
     ("Add._compute_numeric_partials", 0): AccumulateLoop(),
+    ("Add._compute_synthetic_partials", 0): SynthAccumulateLoop(),
 }
